@@ -47,6 +47,11 @@ def jobs(pid, tier, seed, bins, Job, mix, miri_env):
             rounds = 2500 if quick else 120_000
             argv = [bins[variant], "mt", "--prop", str(n), "--seed", str(mix(seed, pid, "mt", i)), "--rounds", str(rounds), "--failpoints", str(fp), "--budget-ms", str(25_000 if quick else 600_000)]
             out.append(Job(f"mt/{variant}/fp{fp}/{i}", argv, timeout=200 if quick else 1500, tool="mt-native"))
+    if pid == "C01":
+        # hardware store-to-load reordering: tight loop with uninstrumented children, release build
+        for i in range(2 if quick else 6):
+            argv = [bins["release"], "pingpong", "--seed", str(mix(seed, pid, "pingpong", i) % 1_000_000_007), "--rounds", str(6_000_000 if quick else 400_000_000), "--runs", str(8 if quick else 64), "--budget-ms", str(15_000 if quick else 300_000)]
+            out.append(Job(f"pingpong/{i}", argv, timeout=200 if quick else 900, tool="mt-native"))
     if pid in MIRI_MT_PROPS:
         reps = 12 if quick else 48
         for i in range(reps):
@@ -59,7 +64,7 @@ def jobs(pid, tier, seed, bins, Job, mix, miri_env):
             if i % 2:
                 # failpoints in their yield-only form: no locks, no memory-ordering effect in Miri's model
                 argv += ["--failpoints", "100"]
-            out.append(Job(f"miri-mt/{i}", argv, env=miri_env(flags), timeout=600 if quick else 3000, tool="miri"))
+            out.append(Job(f"miri-mt/{i}", argv, env=miri_env(flags), timeout=300 if quick else 3000, tool="miri"))
     if pid in MIRI_ST_PROPS:
         reps = (6 if pid in MIRI_MT_PROPS else 12) if quick else 32
         kinds = ST_KINDS.get(pid)
@@ -69,10 +74,10 @@ def jobs(pid, tier, seed, bins, Job, mix, miri_env):
             if not quick and i % 6 == 5:
                 flags += " -Zmiri-tree-borrows"
             hist = 14 if quick else 150
-            argv = ["cargo", "+nightly", "miri", "run", "--offline", "--", "run", "--prop", str(n), "--small", "--histories", str(hist), "--max-ops", "24", "--seed", str(s), "--budget-ms", str(60_000 if quick else 900_000)]
+            argv = ["cargo", "+nightly", "miri", "run", "--offline", "--", "run", "--prop", str(n), "--small", "--histories", str(hist), "--max-ops", "24", "--seed", str(s), "--budget-ms", str(60_000 if quick else 900_000), "--stall-s", "150"]
             if kinds:
                 argv += ["--kind", kinds[i % len(kinds)]]
-            out.append(Job(f"miri-st/{i}", argv, env=miri_env(flags), timeout=600 if quick else 3000, tool="miri"))
+            out.append(Job(f"miri-st/{i}", argv, env=miri_env(flags), timeout=300 if quick else 3000, tool="miri"))
     if pid in ASAN_PROPS:
         env = dict(os.environ, ASAN_OPTIONS="detect_leaks=1:halt_on_error=1:abort_on_error=0:exitcode=99:detect_stack_use_after_return=0", LSAN_OPTIONS="exitcode=98")
         reps = 3 if quick else 8
